@@ -437,6 +437,15 @@ pub(crate) fn round(val: f64, kwargs: Kwargs, _: &State) -> TeraResult<Value> {
     } else {
         10.0_f64.powi(precision)
     };
+    // With a huge precision the scaling overflows (or underflows to 0) and we would return NaN/inf
+    if multiplier == 0.0
+        || !multiplier.is_finite()
+        || (val.is_finite() && !(multiplier * val).is_finite())
+    {
+        return Err(Error::message(format!(
+            "Invalid argument for `precision`: {precision} is out of range for rounding {val}"
+        )));
+    }
 
     match method {
         Some("ceil") => Ok(((multiplier * val).ceil() / multiplier).into()),
